@@ -129,7 +129,7 @@ def hist_common_extras(agg):
         shadow_reads_during_structural_ops=agg.n("shadow_reads"),
         iterator_calls=agg.n("iter_calls"), scans=agg.n("scans"),
         templates=dict(T1_straddle=agg.n("template_T1"), T2_tombstone=agg.n("template_T2"),
-                       T3_overlap=agg.n("template_T3")),
+                       T3_overlap=agg.n("template_T3"), T4_level0_chain=agg.n("template_T4")),
         straddle_layouts_seen=agg.n("c14_straddle_layouts"),
         distinct_layout_signatures=agg.d("layout"),
     )
@@ -881,3 +881,151 @@ def c20(ctx):
         floors=dict(cases=(n("cases"), 500), backups=(n("backups"), 200),
                     inflight=(n("prefixes_with_in_flight_batches"), 1), mem_multi=(n("backups_mem_and_multilevel"), 1)),
         assumptions=["ldb_close concurrent with other calls on the handle is outside the handle contract and not driven"])
+
+
+# ---------------------------------------------------------------------------
+# C16: table format (fmtmon_table)
+
+HARNESSES["fmtmon_table"] = (["fmtmon_table.c", "vh.c", "refcodec.c", "model.c"], ())
+HARNESS_FLAVOURS["fmtmon_table"] = ("rel", "asan")
+
+
+def shard_jobs(ctx, harness_name, flavour, mode, first, count, shards, extra=(), tag=None):
+    jobs = []
+    per = max(1, count // shards)
+    for k in range(shards):
+        d = os.path.join(ctx.scratch, "%s-%s-%s-%d" % (harness_name, flavour, mode, first + k * per))
+        os.makedirs(d, exist_ok=True)
+        n = per if k < shards - 1 else count - per * (shards - 1)
+        jobs.append(hjob(harness_name, flavour,
+                         ["--seed", ctx.seed, "--mode", mode, "--first", first + k * per, "--count", n, "--dir", d] + list(extra),
+                         "%s/%s/%s/%d" % (tag or harness_name, flavour, mode, k), timeout=3000))
+    return jobs
+
+
+@register("C16")
+def c16(ctx):
+    """Table files round-trip under every option and follow the standard format (real builder/reader vs independent reader)."""
+    if ctx.replay:
+        return do_replay(ctx)
+    J = lambda *a, **k: shard_jobs(ctx, "fmtmon_table", *a, **k)
+    if ctx.quick:
+        jobs = (J("rel", "table", 0, 1728, 12) + J("asan", "table", 4000, 48, 4) + J("rel", "snappy", 0, 1200, 6) +
+                J("asan", "snappy", 4000, 240, 2) + J("rel", "sep", 0, 100000, 1) + J("asan", "sep", 0, 40000, 1))
+    else:
+        jobs = (J("rel", "table", 0, 69120, 32) + J("rel", "table", 200000, 17280, 32, ["--big", 1]) +
+                J("asan", "table", 400000, 5184, 32) + J("rel", "snappy", 0, 48000, 16) + J("asan", "snappy", 100000, 9600, 16) +
+                J("rel", "sep", 0, 2000000, 2) + J("asan", "sep", 0, 400000, 2))
+    agg = Agg().add(runner.run_jobs(jobs))
+    c = agg.counts
+    extras = {k: v for k, v in c.items() if k.startswith("c16_")}
+    evaluations = sum(v for k, v in c.items() if k in ("c16_tables", "c16_snappy_cases", "c16_sep_pairs", "c16_cases_table",
+                                                       "c16_cases_snappy", "c16_cases_sep")) or sum(
+        v for k, v in c.items() if k.startswith("c16_cases"))
+    if not evaluations:
+        evaluations = agg.n("c16_tables_built") + agg.n("c16_snappy_buffers") + agg.n("c16_sep_pairs")
+    return runner.finish(
+        "C16", "exploration", ctx.tier, ctx.seed, ctx.t0, agg,
+        rule="generated sorted entry sets (bytewise / internal-over-bytewise / internal-over-reverse key domains; keys with "
+             "shared prefixes, 0xFF/0x00 runs, empty key; values 0 B..1 MiB compressible and not) x all 576 option tuples "
+             "(block size x restart interval x compression x filter bits x cache x mmap): real builder -> real reader "
+             "(scans both ways, seeks to present/between/before/after keys, internal_get, filters) and the independent table "
+             "reader on the bytes (entries, CRCs, separators, restart arrays, footer, filter base); Snappy real<->reference "
+             "in both directions incl. element kinds lcdb never emits; separator/successor contract exhaustively on "
+             "strings of length <= 3 over {00,01,7f,80,fe,ff}; distinct = option tuple x key kind x compression mix shapes",
+        evaluations=max(1, evaluations), distinct_nontrivial=max(agg.d("c16_shape_nontrivial"), agg.d("c16_shape")),
+        extras=extras,
+        floors=dict(shapes=(agg.d("c16_shape"), 500)),
+        assumptions=["harness/refcodec.c (no lcdb headers) is a correct reader of the LevelDB table and Snappy formats"])
+
+
+# ---------------------------------------------------------------------------
+# C17: version edits / MANIFEST (fmtmon_edit) + CURRENT switch window (crashmon, tag C17)
+
+HARNESSES["fmtmon_edit"] = (["fmtmon_edit.c", "vh.c", "dbh.c", "model.c", "refcodec.c"], ())
+HARNESS_FLAVOURS["fmtmon_edit"] = ("rel", "asan")
+
+
+@register("C17")
+def c17(ctx):
+    """Version metadata encoded exactly and switched atomically (edit/varint codecs vs reference, MANIFEST replay, crash window)."""
+    if ctx.replay:
+        return do_replay(ctx)
+    J = lambda *a, **k: shard_jobs(ctx, "fmtmon_edit", *a, **k)
+    if ctx.quick:
+        jobs = (J("rel", "edit", 0, 10240, 4) + J("asan", "edit", 50000, 256, 2) + J("rel", "varintq", 0, 1024, 2) +
+                J("rel", "replay", 0, 240, 10) + J("asan", "replay", 5000, 16, 2) +
+                crash_jobs(ctx, "c05", 6, 50, 0, 1, 0, first=700))
+    else:
+        jobs = (J("rel", "edit", 0, 327680, 16) + J("asan", "edit", 500000, 4800, 16) + J("rel", "varint", 0, 65536, 32) +
+                J("asan", "varintq", 0, 1024, 4) + J("rel", "replay", 0, 9600, 32) + J("asan", "replay", 50000, 640, 16) +
+                crash_jobs(ctx, "c05", 48, 200, 0, 2, 16, first=700))
+    agg = Agg().add(runner.run_jobs(jobs))
+    c = agg.counts
+    extras = {k: v for k, v in c.items() if k.startswith("c17_")}
+    extras.update(crash_images_with_current_checked=agg.n("current_checked"),
+                  manifests_replayed_independently_in_crash_images=agg.n("manifests_replayed_independently"),
+                  crash_images_with_dbtmp_present=agg.n("images_with_dbtmp"),
+                  crash_images_with_torn_manifest_tail=agg.n("images_with_torn_manifest_tail"),
+                  all_2_32_varint32_values=(not ctx.quick))
+    evaluations = agg.n("c17_edits") + agg.n("c17_varint32_chunks") + agg.n("c17_manifests_replayed") + agg.n("current_checked")
+    distinct = agg.d("c17_shape") + agg.d("c17_manifest")
+    return runner.finish(
+        "C17", "exploration", ctx.tier, ctx.seed, ctx.t0, agg,
+        rule="edits with every field present/absent (all 256 masks x 4 size classes up to 5000+5000 files; values at 2^7k "
+             "boundaries and 2^64-1; levels 0..6; arbitrary internal keys): real export/import vs independent decoder and "
+             "independent encoder, malformed variants rejected consistently; varint32 (stratified chunks in quick, ALL 2^32 "
+             "values in thorough) and varint64 boundaries vs reference; MANIFEST of real histories replayed by the "
+             "independent decoder at every quiescent point/reopen == reported layout and counters; every crash image "
+             "(all kinds) of workloads with MANIFEST rollovers: CURRENT names a MANIFEST the independent decoder replays "
+             "completely and whose tables exist; distinct = (field mask, size class) + (layout, edit-count class)",
+        evaluations=max(1, evaluations), distinct_nontrivial=distinct, extras=extras,
+        exhaustive=False,
+        floors=dict(edits=(agg.n("c17_edits"), 2000), manifests=(agg.n("c17_manifests_replayed"), 1000),
+                    current=(agg.n("current_checked"), 1000), dbtmp=(agg.n("images_with_dbtmp"), 5)),
+        assumptions=["harness/refcodec.c implements the VersionEdit tag layout from the format description",
+                     "crash model of C02 for the CURRENT switch window"])
+
+
+# ---------------------------------------------------------------------------
+# C18: decoders total and memory safe (fuzzmon under ASan+UBSan)
+
+HARNESSES["fuzzmon"] = (["fuzzmon.c", "vh.c", "refcodec.c"], ())
+HARNESS_FLAVOURS["fuzzmon"] = ("asan", "rel")
+
+
+@register("C18")
+def c18(ctx):
+    """Decoders are total and memory-safe on arbitrary bytes (structure-aware hostile inputs under ASan+UBSan)."""
+    if ctx.replay:
+        return do_replay(ctx)
+    J = lambda *a, **k: shard_jobs(ctx, "fuzzmon", *a, **k)
+    if ctx.quick:
+        jobs = J("asan", "direct", 0, 240000, 10) + J("asan", "db", 0, 2400, 6) + J("rel", "direct", 1000000, 100000, 1)
+    else:
+        jobs = (J("asan", "direct", 0, 40000000, 64) + J("asan", "db", 0, 240000, 64) +
+                J("rel", "direct", 100000000, 4000000, 8) + J("rel", "db", 1000000, 40000, 8))
+    agg = Agg().add(runner.run_jobs(jobs))
+    c = agg.counts
+    extras = dict(cases=agg.n("cases"), cases_that_entered_the_decoder_proper=agg.n("entered"),
+                  per_target_cases={k[6:]: v for k, v in c.items() if k.startswith("cases.")},
+                  per_target_entered={k[8:]: v for k, v in c.items() if k.startswith("entered.")},
+                  input_classes={k[6:]: v for k, v in c.items() if k.startswith("class.")},
+                  block_entries_parsed=agg.n("block_entries_parsed"), table_entries_parsed=agg.n("table_entries_parsed"),
+                  log_records_read=agg.n("log_records_read"), log_drops_reported=agg.n("log_drops_reported"),
+                  db_open_ok=agg.n("db_open_ok"), db_open_fail=agg.n("db_open_fail"), db_repair_ok=agg.n("db_repair_ok"),
+                  db_reopen_after_repair_ok=agg.n("db_reopen_after_repair_ok"), db_compactions=agg.n("db_compacts"),
+                  slow_cases=agg.n("slow_cases"), witnesses=agg.n("witnesses"))
+    return runner.finish(
+        "C18", "exploration", ctx.tier, ctx.seed, ctx.t0, agg,
+        rule="per target (block+iterator, footer, handle, read_block, filter, snappy, version edit, write batch, log reader, "
+             "parsed keys, file names, varint/slice slurps, dumpfile, table open/get, whole database open/get/scan/compact/"
+             "repair/dump): random bytes, structure-aware mutations of valid artefacts with CRCs re-sealed (length fields, "
+             "varints, restart arrays, handles, counts set to boundary values) and splices of valid fragments; oracle = "
+             "ASan/UBSan report, fatal signal, allocation bomb, CPU/wall guard; non-trivial = the input passed the outer "
+             "integrity gate and entered the decoder proper; distinct = (target, mutated field, boundary class) triples",
+        evaluations=agg.n("cases"), distinct_nontrivial=agg.d("c18_case"), extras=extras,
+        floors=dict(cases=(agg.n("cases"), 50000), entered=(agg.n("entered"), 20000), triples=(agg.d("c18_case"), 500),
+                    db_open=(agg.n("db_open_ok"), 300)),
+        assumptions=["red-zone sanitizers do not see intra-object or far out-of-bounds accesses landing in live memory",
+                     "NDEBUG is kept: debug-only asserts are not counted as aborts of the shipped library"])
